@@ -1,7 +1,7 @@
 (* Proofs/RegistryHistory.v -- the invariant along histories. *)
 From Coq Require Import ZArith NArith List Bool Lia.
 From PydoctorVerif Require Import Base.Sexp Model.Registry Spec.RegistryInv Proofs.RegistryBase Proofs.RegistryProofs
-     Proofs.RegistryReparent.
+     Proofs.RegistryReparent Proofs.RegistryFuel Proofs.RegistryTotal.
 Import ListNotations.
 Local Open Scope N_scope.
 
@@ -71,10 +71,14 @@ Proof.
     apply andb_true_iff in H. destruct H as [H1 H2]. destruct parent as [q|]; cbn [guard_add_module child_key] in *.
     + apply andb_true_iff in H1. destruct H1 as [Hq Hqp]. apply ocls_eqb_eq in Hqp.
       split; [apply registered_reg; assumption | split; [exact Hqp|]].
-      intros pq first Hpq Hf. rewrite Hpq in H2. rewrite Hf in H2. apply andb_true_iff in H2. destruct H2 as [G1 G2].
-      apply ocls_eqb_eq in G1. split; [exact G1 | destruct pkg; [discriminate | reflexivity]].
+      intros pq first Hpq Hf. rewrite Hpq in H2. rewrite Hf in H2.
+      destruct (ocls_eqb (ocl (store s first)) CPackage && negb pkg) eqn:Ec.
+      * left. apply andb_true_iff in Ec. destruct Ec as [G1 G2].
+        apply ocls_eqb_eq in G1. split; [exact G1 | destruct pkg; [discriminate | reflexivity]].
+      * right. cbn [orb] in H2. repeat (apply andb_true_iff in H2; destruct H2 as [H2 ?]).
+        split; [exact H2|]. split; [reflexivity|]. split; [apply mem_id_in; assumption | apply covered_b_sound; assumption].
     + destruct (rget [n] (allobj s)) as [first|] eqn:Ef; [|left; reflexivity].
-      right. exists first. apply andb_true_iff in H2. destruct H2 as [G1 G2]. apply ocls_eqb_eq in G1.
+      right. exists first. rewrite orb_false_r in H2. apply andb_true_iff in H2. destruct H2 as [G1 G2]. apply ocls_eqb_eq in G1.
       split; [reflexivity | split; [exact G1 | destruct pkg; [discriminate | reflexivity]]].
   - (* AddChild *)
     repeat (apply andb_true_iff in H; destruct H as [H ?]).
@@ -117,4 +121,34 @@ Proof.
     + apply (IH s1 (N.succ k) s); [|exact H].
       exact (step_inv s0 o s1 HI (guard_b_sound s0 o HI Eg) Es).
     + apply run_ops_false in H. cbn in H. discriminate.
+Qed.
+
+(* a guarded operation completes and re-establishes the invariant *)
+Lemma step_total_inv : forall s o, Inv s -> guard s o -> exists s', step s o = Some s' /\ Inv s'.
+Proof.
+  intros s o HI Hg. destruct (step_total s o HI Hg) as [s' Hs]. exists s'. split; [exact Hs | eapply step_inv; eauto].
+Qed.
+
+(* a history whose operations all satisfy their (executable) guard does not raise, and ends in a state that
+   satisfies the invariant *)
+Lemma run_ops_guarded_total : forall ops s0 k s f, Inv s0 -> run_ops s0 ops k true = (s, f, true) -> f = None /\ Inv s.
+Proof.
+  induction ops as [|o t IH]; intros s0 k s f HI H; cbn in H.
+  - inversion H; subst. auto.
+  - destruct (guard_b s0 o) eqn:Eg.
+    + destruct (step_total_inv s0 o HI (guard_b_sound s0 o HI Eg)) as [s1 [Es HI1]]. rewrite Es in H.
+      apply (IH s1 (N.succ k) s f HI1 H).
+    + destruct (step s0 o) as [s1|]; [apply run_ops_false in H; cbn in H; discriminate | inversion H].
+Qed.
+
+(* Prop form: the guards alone determine a run *)
+Inductive guarded_hist : state -> list op -> Prop :=
+| gh_nil : forall s, guarded_hist s []
+| gh_cons : forall s o t, guard s o -> (forall s1, step s o = Some s1 -> guarded_hist s1 t) -> guarded_hist s (o :: t).
+Lemma guarded_hist_run : forall ops s, Inv s -> guarded_hist s ops -> exists s', guarded_run s ops s' /\ Inv s'.
+Proof.
+  induction ops as [|o t IH]; intros s HI H.
+  - exists s. split; [constructor | exact HI].
+  - inversion H as [|? ? ? Hg Hrest]; subst. destruct (step_total_inv s o HI Hg) as [s1 [Es HI1]].
+    destruct (IH s1 HI1 (Hrest s1 Es)) as [s' [Hr HI']]. exists s'. split; [econstructor; eauto | exact HI'].
 Qed.
